@@ -282,6 +282,28 @@ def run_case(case, ctx):
         return
       if abs(ref - M.value(node["start"], rr)) > 1e-6 * abs(ref) and abs(ref - M.value(node["end"], rr)) > 1e-6 * abs(ref):
         interior_differs = True
+  # the lower bound of the START potential written explicitly in spline(): '>=S' includes r = S, '>S' does not, and the
+  # function is zero below; for S < r <= detach it still equals the start potential
+  # (S > 0: the spline() definition as a whole has no leading marker and therefore acts for r > 0 only)
+  S = round(min(0.5 * rd, rng.choice([0.25, 0.125, 0.5])), 6)
+  for marker in (">=", ">"):
+    pn2 = dict(node)
+    pn2["s0"] = [marker, S]
+    try:
+      f2 = potable_function(emit.node_text(pn2, emit.Style(random.Random(2))))
+      at_S, above, below = f2(S), f2(S + 0.5 * (rd - S)), f2(S - 0.01)
+      w_S, w_above = start(S) if marker == ">=" else 0.0, start(S + 0.5 * (rd - S))
+    except (ZeroDivisionError, OverflowError):
+      continue            # the start potential itself is singular at S (e.g. S = 0 for a Coulomb-like form)
+    except Exception as e:
+      et, fn = exc_sig(e)
+      ctx.violation("exception", "spline() with start bound %s%s failed: %s %s" % (marker, S, et, e), what="exception", exc=et, func=fn)
+      return
+    ctx.count("start_bound_points", 3)
+    if at_S != w_S or above != w_above or below != 0.0:
+      ctx.violation("start_bound", "spline(%s%s start ...): f(S)=%r (expected %r), f between S and detach=%r (expected %r), f below S=%r (expected 0)" % (
+        marker, S, at_S, w_S, above, w_above, below), what="start_bound")
+      return
   # published coefficients
   co = list(f_api.splineCoefficients)
   if len(co) != len(co_ref):
